@@ -1,2 +1,3 @@
+@property
 def spec(self):
     return {d - 1 if d >= 0 else d: s for d, s in self.__constraints.items() if d != 0}
